@@ -12,7 +12,8 @@ use std::time::Duration;
 #[derive(Debug, Clone, Default)]
 pub struct Inv {
     pub text: String,
-    /// 0 = --evaluate, 1 = file, 2 = stdin
+    /// 0 = --evaluate, 1 = file, 2 = stdin, 3 = named pipe as the file (ordering too), 4 = /dev/stdin as
+    /// the file, 5 = stdin in small pieces (ordering through a named pipe)
     pub channel: u8,
     /// content of the ordering file, if any
     pub ordering: Option<String>,
@@ -42,7 +43,7 @@ impl Inv {
         }
     }
     pub fn describe(&self) -> String {
-        let mut s = format!("rsbdd <{}> `{}`", ["--evaluate", "file", "stdin"][self.channel as usize % 3], self.text);
+        let mut s = format!("rsbdd <{}> `{}`", ["--evaluate", "file", "stdin", "named pipe", "/dev/stdin", "stdin in pieces"][self.channel as usize % 6], self.text);
         if let Some(o) = &self.ordering {
             s.push_str(&format!(" -o <{:?}>", o));
         }
@@ -67,18 +68,28 @@ pub fn invoke(ctx: &Ctx, inv: &Inv, tag: &str) -> RunOut {
     let _ = std::fs::create_dir_all(&dir);
     let mut args: Vec<String> = Vec::new();
     let mut stdin: Option<Vec<u8>> = None;
-    match inv.channel % 3 {
+    let mut feed = cli::Feed::default();
+    match inv.channel % 6 {
         0 => args.push(format!("--evaluate={}", inv.text)),
-        1 => {
-            let p = dir.join("formula.txt");
-            let _ = std::fs::write(&p, inv.text.as_bytes());
-            args.push(p.display().to_string());
+        c => {
+            // 1 regular file, 2 stdin, 3 named pipe, 4 /dev/stdin, 5 stdin in small pieces
+            let mode = [0u8, 0, 1, 3, 4, 5][c as usize];
+            let plan = super::common::plan_input(mode, &dir, "formula.txt", inv.text.as_bytes());
+            if let Some(p) = plan.path_arg {
+                args.push(p);
+            }
+            stdin = plan.stdin;
+            feed = plan.feed;
         }
-        _ => stdin = Some(inv.text.as_bytes().to_vec()),
     }
     if let Some(o) = &inv.ordering {
-        let p = dir.join("ordering.txt");
-        let _ = std::fs::write(&p, o.as_bytes());
+        let p = dir.join(super::common::hostile_file_name(o.len(), "ordering.txt"));
+        if inv.channel % 6 == 3 || inv.channel % 6 == 5 {
+            // the ordering through a named pipe as well
+            feed.fifos.push((p.clone(), o.as_bytes().to_vec(), [1usize, 5, 100][o.len() % 3]));
+        } else {
+            let _ = std::fs::write(&p, o.as_bytes());
+        }
         args.push("-o".into());
         args.push(p.display().to_string());
     }
@@ -95,7 +106,7 @@ pub fn invoke(ctx: &Ctx, inv: &Inv, tag: &str) -> RunOut {
         args.push("-b".into());
         args.push(b.to_string());
     }
-    let out = cli::run(&ctx.bin("rsbdd"), &args, stdin.as_deref(), Some(&dir), Some((20_000_000, 100_000)), Duration::from_secs(60));
+    let out = cli::run_fed(&ctx.bin("rsbdd"), &args, stdin.as_deref(), &feed, Some(&dir), Some((20_000_000, 100_000)), Duration::from_secs(60));
     let _ = std::fs::remove_dir_all(&dir);
     out
 }
@@ -110,30 +121,30 @@ pub struct Parsed {
 
 /// stdout layout: [-r: one name per line] [-t: table] [-v: lines ending in `;`]
 pub fn parse_stdout(s: &str, inv: &Inv) -> Result<Parsed, String> {
-    let lines: Vec<&str> = s.lines().collect();
-    let mut i = 0;
+    // Lines are classified one by one — a table line starts with '|', a -v line ends with ';',
+    // anything else is a line of the exported ordering — so the ORDER in which the sections are
+    // printed is not judged (the statement does not fix it); a torn or merged line is.
     let mut exported = Vec::new();
-    if inv.r {
-        while i < lines.len() && !lines[i].starts_with('|') && !lines[i].trim_end().ends_with(';') {
-            exported.push(lines[i].to_string());
-            i += 1;
-        }
-    }
-    let mut table = None;
-    if inv.t {
-        let (t, used) = cli::parse_table(&lines[i..])?;
-        i += used;
-        table = Some(t);
-    }
+    let mut table_lines: Vec<&str> = Vec::new();
     let mut vlines = Vec::new();
-    if inv.v {
-        while i < lines.len() {
-            let l = lines[i].trim_end();
-            let Some(body) = l.strip_suffix(';') else { return Err(format!("unexpected line in -v section: {:?}", l)) };
+    for line in s.lines() {
+        let l = line.trim_end();
+        if line.starts_with('|') {
+            if !inv.t {
+                return Err(format!("table line without -t: {:?}", line));
+            }
+            table_lines.push(line);
+        } else if let Some(body) = l.strip_suffix(';') {
+            if !inv.v {
+                return Err(format!("-v line without -v: {:?}", line));
+            }
             let mut items = Vec::new();
             for part in body.split(", ") {
                 if part.is_empty() {
                     continue;
+                }
+                if part.contains('|') {
+                    return Err(format!("table fragment inside a -v line: {:?}", line));
                 }
                 match part.strip_suffix('*') {
                     Some(n) => items.push((n.to_string(), true)),
@@ -141,11 +152,19 @@ pub fn parse_stdout(s: &str, inv: &Inv) -> Result<Parsed, String> {
                 }
             }
             vlines.push(items);
-            i += 1;
+        } else if inv.r {
+            exported.push(line.to_string());
+        } else {
+            return Err(format!("unexpected output line {:?}", line));
         }
     }
-    if i != lines.len() {
-        return Err(format!("unexpected trailing output line {:?}", lines[i]));
+    let mut table = None;
+    if inv.t {
+        let (t, used) = cli::parse_table(&table_lines)?;
+        if used != table_lines.len() {
+            return Err(format!("unexpected table line {:?}", table_lines[used]));
+        }
+        table = Some(t);
     }
     Ok(Parsed { exported, table, vlines })
 }
